@@ -407,3 +407,134 @@ def fix_times_pair(X):
         for sfx in 'wsu':
             specs.append([(o_, d_, (t_[0], t_[1], t_[2], t_[3], sfx if i else 'w')) for i, (o_, d_, t_) in enumerate(sp)])
     _walk_pair(X, 'fixTransitionTimes', 'ZoneSpecifier._fix_transition_times', specs, rc, rp, 'transition times with every suffix after a transition with other offsets')
+
+
+# ---- the abbreviation of a transition ------------------------------------------------------------------------------------------
+
+def _cstr(s):
+    return [ord(c) for c in s] + [0]
+
+
+def _cstring_ops():
+    """the C string functions createAbbreviation uses, on buffers that are lists of character codes (a pointer is the list or
+    a Ref into it); a read or write outside a buffer raises IndexError"""
+    from .aeval import Ref
+
+    def cell(p, i=0):
+        return (p.box, p.key + i) if isinstance(p, Ref) else (p, i)
+
+    def get(p, i):
+        b, k = cell(p, i)
+        if k < 0:
+            raise IndexError('negative subscript')
+        return b[k]
+
+    def put(p, i, v):
+        b, k = cell(p, i)
+        if k < 0:
+            raise IndexError('negative subscript')
+        b[k] = v
+
+    def strchr(ev, recv, a):
+        s, ch = a
+        i = 0
+        while True:
+            c = get(s, i)
+            if c == ch:
+                b, k = cell(s, i)
+                return Ref(b, k)
+            if c == 0:
+                return None
+            i += 1
+
+    def strlen(ev, recv, a):
+        i = 0
+        while get(a[0], i) != 0:
+            i += 1
+        return i
+
+    def strncpy(ev, recv, a):
+        d, s, n = a
+        i = 0
+        while i < n and get(s, i) != 0:
+            put(d, i, get(s, i))
+            i += 1
+        while i < n:
+            put(d, i, 0)
+            i += 1
+        return d
+
+    def memcpy(ev, recv, a):
+        d, s, n = a
+        for i in range(n):
+            put(d, i, get(s, i))
+        return d
+    out = {}
+    for name, f in (('strchr', strchr), ('strlen', strlen), ('strncpy', strncpy), ('memcpy', memcpy)):
+        out[name] = f
+        out['::' + name] = f
+    out['ace_time::logging::printf'] = lambda e_, r_, a_: None
+    return out
+
+
+def abbrev_pair(R, lib, zs):
+    """R7: ExtendedZoneProcessor::createAbbreviation (through copyAndReplace and the C string functions, on character buffers
+    with guard cells) against ZoneSpecifier._calc_abbrev, interpreted on every combination of a FORMAT ("A/B", "X%sY", "%s", plain),
+    a DST shift (negative, zero, positive - the argument goes through the parameter's own type) and a LETTER (none, '-', one
+    character, several): the abbreviation must be the same text on both sides."""
+    from .aeval import AEval, CxxModule, Raised
+    from .pyeval import PyEval, PObj, Raised as PRaised
+    from .rules_C04 import XP
+    R.rule('R7', 'createAbbreviation and _calc_abbrev give the same abbreviation for every FORMAT kind x DST shift x LETTER (interpreted)', floor=2)
+    cf = lib.fn(XP + 'createAbbreviation')
+    pf = zs.fn('ZoneSpecifier._calc_abbrev')
+    c = 'ExtendedZoneProcessor::createAbbreviation~ZoneSpecifier._calc_abbrev'
+    mod = CxxModule(lib, ['ace_time::'])
+    intr = _cstring_ops()
+    size = lib.const('ace_time::extended::Transition::kAbbrevSize')
+    if len(cf.params) != 5:
+        raise AnalysisError('anchor moved: %s is expected to take (dest, destSize, format, deltaMinutes, letterString)' % cf.name)
+    formats = [('STD/DST', 'STD/DST'), ('+00/+01', '+00/+01'), ('E%sT', 'E%T'), ('%s', '%'), ('GMT', 'GMT'), ('A/B', 'A/B')]
+    deltas = [-3600, -1800, 0, 1800, 3600, 7200]
+    letters = [(None, None), ('-', ''), ('D', 'D'), ('S', 'S'), ('DD', 'DD'), ('WAT', 'WAT')]
+    pev = PyEval(R.cfg, max_steps=2000000)
+    n, diffs = 0, []
+    G = 0x7f
+    for (pfmt, cfmt), ds, (plet, clet) in itertools.product(formats, deltas, letters):
+        if plet is None and '%' in pfmt:
+            continue            # the compiler refuses a FORMAT with %s under a fixed RULES offset (C03-R10, feature source)
+        # Python: a transition of an era with this FORMAT; with a rule (its SAVE and LETTER) or without (fixed RULES offset)
+        era = PObj(zs, 'ZoneEraCooked', {'format': pfmt, 'rulesDeltaSeconds': ds if plet is None else 0, 'offsetSeconds': 3600})
+        rule = None if plet is None else PObj(zs, 'ZoneRuleCooked', {'deltaSeconds': ds, 'letter': plet})
+        ok_, slots = pev.class_attr(zs, 'Transition', '__slots__')
+        tr = PObj(zs, 'Transition', dict({s_: None for s_ in (slots or [])}, zoneEra=era, zoneRule=rule))
+        pev.steps = 0
+        try:
+            pev.call(zs, 'ZoneSpecifier._calc_abbrev', [[tr]])
+            pgot = tr.attrs.get('abbrev')
+        except PRaised as x_:
+            pgot = ('raises', x_.what)
+        dest = [G] * size + [G, G]
+        try:
+            AEval(module=mod, intrinsics=intr, typed=True, max_steps=200000).call_function(
+                cf.name, [dest, size, _cstr(cfmt), ds // 60, None if clet is None else _cstr(clet)], chosen=CxxModule._Fn(cf))
+            if dest[size:] != [G, G]:
+                cgot = ('writes past the buffer', None)
+            elif 0 not in dest[:size]:
+                cgot = ('no terminating NUL', None)
+            else:
+                cgot = ''.join(chr(x) for x in dest[:dest.index(0)])
+        except Raised as x_:
+            cgot = ('raises', x_.what)
+        except IndexError as x_:
+            cgot = ('reads or writes outside a buffer', str(x_))
+        n += 1
+        want = pgot[:size - 1] if isinstance(pgot, str) else pgot
+        if cgot != want:
+            diffs.append(('FORMAT %r, DST shift %d s, %s' % (pfmt, ds, 'no rule (fixed RULES offset)' if plet is None else 'LETTER %r' % plet), repr(cgot), repr(pgot)))
+    R.instance('R7', c, cf.loc, '%d interpreted cases (FORMAT x DST shift x LETTER)' % n, n=2)
+    if diffs:
+        d = diffs[0]
+        R.violation('R7', c, cf.loc, 'the two implementations differ for %s: C++ -> %s, Python -> %s (%d of %d cases differ)' % (d[0], d[1], d[2], len(diffs), n),
+                    detail=['Python side: %s' % pf.loc])
+
